@@ -363,6 +363,19 @@ def check_spec(desc: tuple) -> Dict[str, Any]:
                     twin.close()
                 except Exception as exc:  # noqa: BLE001
                     twin_ok, twin_inputs, twin_err = False, None, exc
+                # ... and with only the outermost declared namespaces immutable, plain dictionaries further down (what one
+                # gets from ``{**other.inputs}``): the caller's dictionaries stay exactly as given there too
+                outer = {k: (type(v)(plain(v)) if hasattr(v, 'items') and not isinstance(v, dict) else v) for k, v in frozen_given.items()}
+                if any(isinstance(x, dict) for v in outer.values() if hasattr(v, 'items') and not isinstance(v, dict) for x in v.values()):
+                    out['n'] += 1
+                    before = copy.deepcopy(plain(outer))
+                    try:
+                        mixed = cls(inputs=outer, pid='c11m', loop=loop)
+                        mixed.close()
+                    except Exception:  # noqa: BLE001 - the verdict is judged through the fully frozen twin
+                        pass
+                    if plain(outer) != before:
+                        violate('frozen-mappings:caller-dictionary-changed', {'before': before, 'after': plain(outer)})
                 # (refusing such a mapping altogether is not judged: the quantifier speaks of input *dictionaries*)
                 if twin_ok and not got_ok:
                     violate('frozen-mappings:accepts-what-spec-rejects', {'model': want, 'impl': 'constructed'})
